@@ -216,6 +216,27 @@ add(property='C17', id='C17-tilted-frames', status='fixed', commit='76123e6', cl
                                               surf(R=-60.0, t=40.0, ry=-0.05)], ap=('EPD', 8.0), fields=(0.0, 5.0)),
                 'rays': [[1.0, 0.3, 0.4], [1.0, -0.5, 0.5], [1.0, 0.0, 0.0]], 'state': {'name': 'H'}, 'wl': 0})
 
+_bk7 = dict(kind='glass', name='N-BK7 (SCHOTT)', file='glass/schott/N-BK7.yml')
+add(property='C08', id='C08-chromatic-height', status='open', clause='surface_term_TAchC',
+    what='Aberrations._TAchC_term/_TchC_term use the marginal height of the previous record (ya[k-1]) instead of the '
+         'height on surface k: axial and lateral colour contributions of every surface after the first are scaled by '
+         'y(k-1)/y(k) (3.5% on the second surface of a 5 mm thick doublet element; zero on surface 1 for finite objects); '
+         'tests/test_aberrations.py pins the values, so it is recorded, not repaired',
+    region='all lenses (every surface k >= 2; surface 1 for finite objects)',
+    weakened_relation='TAchC_k, TchC_k equal Smith\'s formulas evaluated with the marginal height of the previous record',
+    reproducer={'kind': 'spec', 'spec': spec([surf(R=50.0, t=5.0, mat=_bk7), surf(R=-40.0, t=2.0, mat=glass(1.7), stop=True),
+                                              surf(R=-120.0, t=80.0)], ap=('EPD', 12.0), fields=(0.0, 5.0))})
+add(property='C08', id='C08-mirror-terms', status='open', clause='surface_term_TSC',
+    what='third-order terms use optic.n(), which reports the same positive index on both sides of a mirror: reflecting '
+         'surfaces contribute exactly 0 to TSC, CC, TAC, TPC and the colour terms, and refracting surfaces after a mirror '
+         'are evaluated with unsigned indices (a concave mirror R=-100, EPD 20 has zero spherical aberration according to '
+         'seidels()); a repair needs the signed-index convention throughout, recorded',
+    region='lens contains a reflecting surface',
+    weakened_relation='terms of reflecting surfaces are exactly 0 (except DC); terms of refracting surfaces equal the '
+                      'formulas evaluated with unsigned indices; all identities still hold',
+    reproducer={'kind': 'spec', 'spec': spec([surf(R=-100.0, t=-45.0, mat=MIRROR, stop=True)], ap=('EPD', 20.0),
+                                             fields=(0.0, 2.0))})
+
 for _e in F:
     if _e['id'] == 'C13-caller-arrays':
         _e['reproducer']['spec']['fields'][1].update(vx=0.2, vy=0.3)
